@@ -15,6 +15,7 @@ var uintTypes = map[string]sTypeInfo{
 	"uint64": {Lean: "UInt64", Zero: "0", Kind: "uint", Width: 64},
 	"uint32": {Lean: "UInt32", Zero: "0", Kind: "uint", Width: 32},
 	"int":    {Lean: "Int", Zero: "0", Kind: "int"},
+	"byte":   {Lean: "UInt8", Zero: "0", Kind: "uint", Width: 8},
 	"string": {Kind: "drop"},
 }
 
@@ -118,7 +119,46 @@ var basicGroup = sGroup{
 	},
 }
 
-var sGroups = []*sGroup{&pssGroup, &basicGroup}
+// LedgerBaseStorage: byte-level identifiers; `[]byte` is `List UInt8`; the `Ledger` is an opaque state `Λ` with its
+// interface methods as parameters; the `int` byte counters are `Int` (no overflow modelled: 2^63 bytes)
+var ledgerGroup = sGroup{
+	Recv:     "LedgerBaseStorage",
+	TypeVars: []string{"Λ", "ε"},
+	Types: withBase(map[string]sTypeInfo{
+		"SlabID":    {Lean: "SlabIdB.SlabIDB", Zero: "SlabIdB.SlabIDUndefined", Kind: "eq"},
+		"Address":   {Lean: "SlabIdB.Address", Zero: "SlabIdB.AddressUndefined", Kind: "eq"},
+		"SlabIndex": {Lean: "SlabIdB.SlabIndex", Zero: "SlabIdB.SlabIndexUndefined", Kind: "eq"},
+		"error":     {Lean: "Option ε", Zero: "none", Kind: "opt", Payload: "ε", Prefix: "error"},
+		"Ledger":    {Lean: "Λ", Kind: "iface", Prefix: "Ledger"},
+	}),
+	Fields: map[string]sView{
+		"SlabID.address": {Lean: "address", Type: "Address"},
+		"SlabID.index":   {Lean: "index", Type: "SlabIndex"},
+	},
+	Slices: map[string]sView{
+		"Address": {Lean: "{X}.val", Type: "[]byte"}, // the 8 bytes of the array
+	},
+	FuncViews: map[string]sView{
+		"NewSlabID":            {Lean: "(SlabIdB.newSlabID {0} {1})", Type: "SlabID"},
+		"SlabIndexToLedgerKey": {Lean: "(SlabIdB.slabIndexToLedgerKey {0})", Type: "[]byte"}, // []byte("$" + string(ind[:]))
+	},
+	Targets: []sTarget{
+		{Func: "LedgerBaseStorage.Retrieve", Lean: "LedgerBaseStorage_Retrieve"},
+		{Func: "LedgerBaseStorage.Store", Lean: "LedgerBaseStorage_Store"},
+		{Func: "LedgerBaseStorage.Remove", Lean: "LedgerBaseStorage_Remove"},
+		{Func: "LedgerBaseStorage.GenerateSlabID", Lean: "LedgerBaseStorage_GenerateSlabID"},
+		{Func: "LedgerBaseStorage.BytesRetrieved", Lean: "LedgerBaseStorage_BytesRetrieved"},
+		{Func: "LedgerBaseStorage.BytesStored", Lean: "LedgerBaseStorage_BytesStored"},
+		{Func: "LedgerBaseStorage.SegmentCounts", Lean: "LedgerBaseStorage_SegmentCounts"},
+		{Func: "LedgerBaseStorage.Size", Lean: "LedgerBaseStorage_Size"},
+		{Func: "LedgerBaseStorage.SegmentsReturned", Lean: "LedgerBaseStorage_SegmentsReturned"},
+		{Func: "LedgerBaseStorage.SegmentsUpdated", Lean: "LedgerBaseStorage_SegmentsUpdated"},
+		{Func: "LedgerBaseStorage.SegmentsTouched", Lean: "LedgerBaseStorage_SegmentsTouched"},
+		{Func: "LedgerBaseStorage.ResetReporter", Lean: "LedgerBaseStorage_ResetReporter"},
+	},
+}
+
+var sGroups = []*sGroup{&pssGroup, &basicGroup, &ledgerGroup}
 
 const sPrelude = `-- GENERATED by harness/cmd/gotrans (stateful engine) from storage.go on every check run. Do not edit.
 -- Go -> Lean translation of the SEQUENTIAL part of the storage state machine: the receiver is a record threaded
